@@ -489,3 +489,25 @@ func hugeFloats(r *fw.Rand, stride int) int {
 	}
 	return n
 }
+
+// spareStored returns, one time in three, the geometry of model g built over
+// storage a caller may well have: flat coordinates and end offsets with spare
+// capacity behind their length (zeros behind an empty point's, too), or empty but
+// non-nil slices, and perhaps a Reserve on top.  What a geometry is is decided
+// by the lengths; an encoder or measure has no business behind them.
+func spareStored(c *fw.Ctx, g *model.G, t geom.T) geom.T {
+	r := c.R
+	if g.Kind == model.Collection || g.Layout.Stride() == 0 || !r.Chance(1, 3) {
+		return t
+	}
+	nt := c16Build(g, 1+r.Intn(2))
+	if nt == nil {
+		return t
+	}
+	geom.SetSRID(nt, g.SRID)
+	if r.Chance(1, 3) {
+		c16Reserve(nt, r.Range(1, 9))
+	}
+	c.Count("geometry_built_over_storage_with_spare_capacity")
+	return nt
+}
